@@ -401,8 +401,10 @@ def run(w: Workload):
               "the others); inside a case the spelling is written as is, "
               "lower, upper and swap-case, with the namespace prefix of the member.  thorough: every tag of every "
               "configuration; quick: per member schema the 6 deepest tags, 4 roots, %d value-taking tags and random others "
-              "(w.rng) up to %d, every configuration covered.  Configurations: %s + generated schemas."
-              % (VALUE_SUFFIX, QUICK_TAGS_PER_SCHEMA // 3, QUICK_TAGS_PER_SCHEMA, [b[0] for b in BUNDLED]))
+              "(w.rng) up to %d, every configuration covered.  Configurations: %s + generated schemas.  Table part: case = (configuration, "
+              "kind of input object, HED cell, first conversion): cells are annotations of 1-3 such tag texts (9 group shapes, 4 blank "
+              "patterns), n/a, empty; thorough: every configuration and 400 tags per member, quick: %s + generated, 36 tags per member."
+              % (VALUE_SUFFIX, QUICK_TAGS_PER_SCHEMA // 3, QUICK_TAGS_PER_SCHEMA, [b[0] for b in BUNDLED], list(TABLE_QUICK)))
     configs = []
     for label, arg, files in BUNDLED:
         configs.append((label, ("bundled", arg), files, [vocabulary(f) for f in files]))
